@@ -33,14 +33,53 @@ type serPay struct {
 	next     int
 	pending  int // id of the varint used by the last make() that was not stored yet (0: none)
 	problems []string
+
+	reads      int    // read primitives met so far on this path
+	failedAt   string // position of the read that was made to fail ("" : none)
+	failedSite token.Pos
+	fields     map[string]Value     // other struct fields assigned on this path (a sticky error, a reader wrapper)
+	bufRead    map[types.Object]int // local buffer -> id of the header read that filled it last
+	decisions  []serDecision
+
+	// Dump: scratch buffer bookkeeping
+	typeFacts map[string]string // value -> "string" / "!string" as tested on this path
+	bufIssues []string          // "scalar: …" / "string: …"
+	encSites  int               // encoder calls whose buffer was checked
+	strSites  int               // … of which for a value known to be a string
 }
 
+// serDecision is an undecided condition and the way this path went.
+type serDecision struct {
+	Pos    token.Pos
+	Cond   string
+	Taken  bool
+	NEv    int    // number of events before it
+	Header string // "<const> <relation that holds on this path> hdr#<k>[i]" for a comparison of header bytes with a format constant
+}
+
+func (d serDecision) key() string { return fmt.Sprintf("%d/%v", d.Pos, d.Taken) }
+
 func newSerPay() *serPay {
-	return &serPay{frames: [][]serEvent{nil}, names: map[int]string{}, sized: map[string]int{}, rawCount: map[int]int{}, loopFld: []string{""}}
+	return &serPay{frames: [][]serEvent{nil}, names: map[int]string{}, sized: map[string]int{}, rawCount: map[int]int{}, loopFld: []string{""},
+		fields: map[string]Value{}, bufRead: map[types.Object]int{}, typeFacts: map[string]string{}}
 }
 
 func (p *serPay) Clone() Payload {
-	q := &serPay{names: map[int]string{}, sized: map[string]int{}, rawCount: map[int]int{}, next: p.next, pending: p.pending}
+	q := &serPay{names: map[int]string{}, sized: map[string]int{}, rawCount: map[int]int{}, next: p.next, pending: p.pending,
+		reads: p.reads, failedAt: p.failedAt, failedSite: p.failedSite, fields: map[string]Value{}, bufRead: map[types.Object]int{}}
+	for k, v := range p.fields {
+		q.fields[k] = v
+	}
+	for k, v := range p.bufRead {
+		q.bufRead[k] = v
+	}
+	q.decisions = append([]serDecision(nil), p.decisions...)
+	q.typeFacts = map[string]string{}
+	for k, v := range p.typeFacts {
+		q.typeFacts[k] = v
+	}
+	q.bufIssues = append([]string(nil), p.bufIssues...)
+	q.encSites, q.strSites = p.encSites, p.strSites
 	for _, f := range p.frames {
 		q.frames = append(q.frames, append([]serEvent(nil), f...))
 	}
@@ -115,6 +154,34 @@ func isDigits(s string) bool {
 
 func serPayOf(st *State) *serPay { return st.P.(*serPay) }
 
+// serScalarNeed: the bytes a scalar constant takes at most — the type code and a 9-byte varint.
+const serScalarNeed = 10
+
+// bufHolds: one of the known lower bounds of the buffer's length is at least need (lengths are non-negative).
+func bufHolds(lows []*Lin, need *Lin) bool {
+	for _, l := range lows {
+		d := l.sub(need)
+		ok := d.C >= 0
+		for _, k := range d.T {
+			if k < 0 {
+				ok = false
+			}
+		}
+		if ok {
+			return true
+		}
+	}
+	return false
+}
+
+func boundsString(lows []*Lin) string {
+	var s []string
+	for _, l := range lows {
+		s = append(s, l.String())
+	}
+	return "[" + strings.Join(s, " | ") + "]"
+}
+
 var serPrimitives = map[string]bool{"uvarintFromBuf": true, "valueFromBuf": true, "uvarintToBytes": true, "valueToBytes": true}
 
 // progFieldLoose is progField that also sees the line table through a *lineCalc variable.
@@ -138,8 +205,25 @@ func isErrorType(t types.Type) bool {
 	return ok && n.Obj().Pkg() == nil && n.Obj().Name() == "error"
 }
 
-func (c *Ctx) serHooks(load bool) Hooks {
+// serMode: what is interpreted. failAt > 0 makes the failAt-th read primitive of every path fail (a short read with
+// a non-nil error) while all others succeed.
+type serMode struct {
+	load   bool
+	failAt int
+}
+
+// readSize describes the number of bytes a read was asked for.
+type readSize struct {
+	K     int64  // constant size (-1: not constant)
+	UV    int    // id of the varint that gives the size (0: none)
+	Field string // the Prog field read into ("" : none)
+	Short bool   // the read came up short
+}
+
+func (c *Ctx) serHooks(mode serMode) Hooks {
+	load := mode.load
 	var h Hooks
+	bufKeys := map[string]ast.Expr{} // symbol of a buffer's length -> the expression it is the length of
 	describe := func(v Value) string {
 		if v.K == vTag {
 			switch v.Tag {
@@ -164,6 +248,9 @@ func (c *Ctx) serHooks(load bool) Hooks {
 			if o, ok := c.objOf(e).(*types.Var); ok && o.Pkg() != nil && o.Pkg().Path() == "io" && o.Name() == "EOF" {
 				return tagV("ioEOF", nil), true
 			}
+			if o, ok := c.objOf(e).(*types.Var); ok && o.Pkg() != nil && o.Pkg().Path() == "io" && isErrorType(o.Type()) {
+				return tagV("err", nil), true // io.ErrUnexpectedEOF and the like
+			}
 			if o, ok := c.objOf(e).(*types.Var); ok && o.IsField() {
 				if f := c.progFieldLoose(e); f != "" {
 					if _, isStruct := derefType(o.Type()).Underlying().(*types.Struct); isStruct {
@@ -171,8 +258,62 @@ func (c *Ctx) serHooks(load bool) Hooks {
 					}
 					return tagV("field", f), true
 				}
+				if fp := c.fieldPath(e); fp != "" {
+					if v, ok := serPayOf(st).fields[fp]; ok {
+						return v, true
+					}
+				}
 			}
+		case *ast.CompositeLit:
+			// a struct literal sets its fields (dumpWriter{out: …, scratch: make([]byte, n)})
+			stt, ok := derefType(c.typeOf(e)).Underlying().(*types.Struct)
+			if !ok || len(e.Elts) == 0 {
+				return Value{}, false
+			}
+			tn := "<" + typeShort(c.typeOf(e)) + ">"
+			for i, el := range e.Elts {
+				name := ""
+				val := el
+				if kv, ok := el.(*ast.KeyValueExpr); ok {
+					if id, ok := kv.Key.(*ast.Ident); ok {
+						name = id.Name
+					}
+					val = kv.Value
+				} else if i < stt.NumFields() {
+					name = stt.Field(i).Name()
+				}
+				vs := in.eval(st, val)
+				if len(vs) == 1 && name != "" {
+					serPayOf(st).fields[tn+"."+name] = vs[0].v
+				}
+			}
+			return Value{K: vUnknown, T: c.typeOf(e)}, true
 		case *ast.SliceExpr:
+			if !load && e.Low == nil && e.High == nil {
+				// b[:] of a fixed array: a buffer of that many bytes
+				if arr, ok := derefType(c.typeOf(e.X)).Underlying().(*types.Array); ok {
+					return tagV("buf", []*Lin{linConst(arr.Len())}), true
+				}
+			}
+			if load {
+				if id, ok := stripParens(e.X).(*ast.Ident); ok {
+					if ev, ok := serPayOf(st).bufRead[c.objOf(id)]; ok {
+						lo, hi := int64(0), int64(-1)
+						okB := true
+						if e.Low != nil {
+							lo, okB = c.intConst(e.Low)
+						}
+						if e.High != nil && okB {
+							hi, okB = c.intConst(e.High)
+						} else if arr, isArr := derefType(c.typeOf(e.X)).Underlying().(*types.Array); isArr {
+							hi = arr.Len()
+						}
+						if okB && hi >= 0 {
+							return tagV("hdrbytes", fmt.Sprintf("hdr#%d[%d:%d]", ev, lo, hi)), true
+						}
+					}
+				}
+			}
 			if e.High != nil && !load {
 				hv := in.eval(st, e.High)
 				if len(hv) == 1 && hv[0].v.K == vTag && hv[0].v.Tag == "encn" {
@@ -187,7 +328,7 @@ func (c *Ctx) serHooks(load bool) Hooks {
 			// slicing a Prog field keeps denoting the field's bytes when it is the whole of it
 			if e.Low == nil && e.High == nil {
 				xv := in.eval(st, e.X)
-				if len(xv) == 1 && xv[0].v.K == vTag && (xv[0].v.Tag == "field" || xv[0].v.Tag == "sized") {
+				if len(xv) == 1 && xv[0].v.K == vTag && (xv[0].v.Tag == "field" || xv[0].v.Tag == "sized" || xv[0].v.Tag == "buf") {
 					return xv[0].v, true
 				}
 			}
@@ -198,6 +339,15 @@ func (c *Ctx) serHooks(load bool) Hooks {
 		if x.K == vTag && x.Tag == "field" {
 			return tagV("elem", x.Data), true
 		}
+		if load {
+			if id, ok := stripParens(e.X).(*ast.Ident); ok {
+				if ev, ok := serPayOf(st).bufRead[c.objOf(id)]; ok && idx.K == vConst {
+					if k, ok := constant.Int64Val(idx.C); ok {
+						return tagV("hdrbytes", fmt.Sprintf("hdr#%d[%d]", ev, k)), true
+					}
+				}
+			}
+		}
 		return Value{}, false
 	}
 	h.BinOp = func(l Value, op token.Token, r Value) (Value, bool) {
@@ -207,9 +357,11 @@ func (c *Ctx) serHooks(load bool) Hooks {
 		}
 		b := func(x bool) (Value, bool) { return constV(constant.MakeBool(x)), true }
 		tag := func(v Value, t string) bool { return v.K == vTag && v.Tag == t }
-		// a read returned the full count
+		// the byte count of a read against what was asked for
 		if tag(l, "readn") || tag(r, "readn") {
+			n, o := l, r
 			if tag(r, "readn") {
+				n, o = r, l
 				switch op {
 				case token.LSS:
 					op = token.GTR
@@ -221,7 +373,69 @@ func (c *Ctx) serHooks(load bool) Hooks {
 					op = token.LEQ
 				}
 			}
-			return b(op == token.EQL || op == token.GEQ || op == token.LEQ)
+			sz, _ := n.Data.(readSize)
+			// is the other operand the size that was asked for (0), more (+1), less (-1) or unrelated (2)?
+			rel := 2
+			switch {
+			case o.K == vConst && o.C.Kind() == constant.Int && sz.K >= 0:
+				k, _ := constant.Int64Val(o.C)
+				switch {
+				case k == sz.K:
+					rel = 0
+				case k > sz.K:
+					rel = 1
+				default:
+					rel = -1
+				}
+			case tag(o, "uv") && sz.UV != 0 && o.Data.(int) == sz.UV:
+				rel = 0
+			case tag(o, "len") && sz.Field != "" && o.Data.(string) == sz.Field:
+				rel = 0
+			}
+			if rel == 2 {
+				return Value{}, false
+			}
+			if !sz.Short {
+				// n == asked
+				switch op {
+				case token.EQL:
+					return b(rel == 0)
+				case token.NEQ:
+					return b(rel != 0)
+				case token.LSS:
+					return b(rel > 0)
+				case token.LEQ:
+					return b(rel >= 0)
+				case token.GTR:
+					return b(rel < 0)
+				case token.GEQ:
+					return b(rel <= 0)
+				}
+			}
+			// 0 <= n < asked: decided only when it does not depend on how short the read was
+			switch op {
+			case token.EQL:
+				if rel >= 0 {
+					return b(false)
+				}
+			case token.NEQ:
+				if rel >= 0 {
+					return b(true)
+				}
+			case token.LSS:
+				if rel >= 0 {
+					return b(true)
+				}
+			case token.LEQ:
+				if rel >= 0 {
+					return b(true)
+				}
+			case token.GTR, token.GEQ:
+				if rel >= 0 {
+					return b(false)
+				}
+			}
+			return Value{}, false
 		}
 		if op != token.EQL && op != token.NEQ {
 			return Value{}, false
@@ -236,6 +450,10 @@ func (c *Ctx) serHooks(load bool) Hooks {
 		case tag(l, "eof") && tag(r, "nil"), tag(r, "eof") && tag(l, "nil"):
 			return eq(false)
 		case tag(l, "err") && tag(r, "nil"), tag(r, "err") && tag(l, "nil"):
+			return eq(false)
+		case tag(l, "rerr") && tag(r, "nil"), tag(r, "rerr") && tag(l, "nil"):
+			return eq(false)
+		case tag(l, "err") && tag(r, "ioEOF"), tag(r, "err") && tag(l, "ioEOF"):
 			return eq(false)
 		case tag(l, "nil") && nilLike(r), tag(r, "nil") && nilLike(l):
 			return eq(true)
@@ -263,7 +481,7 @@ func (c *Ctx) serHooks(load bool) Hooks {
 			return triUnknown
 		}
 		vs := in.eval(st.clone(), other)
-		if len(vs) == 1 && vs[0].v.K == vTag && (vs[0].v.Tag == "err" || vs[0].v.Tag == "eof") {
+		if len(vs) == 1 && vs[0].v.K == vTag && (vs[0].v.Tag == "err" || vs[0].v.Tag == "eof" || vs[0].v.Tag == "rerr") {
 			if be.Op == token.NEQ {
 				return triTrue
 			}
@@ -288,6 +506,15 @@ func (c *Ctx) serHooks(load bool) Hooks {
 			return unknownV()
 		}
 		isTag := func(v Value, t string) bool { return v.K == vTag && v.Tag == t }
+		failing := func() bool {
+			p.reads++
+			if mode.failAt == p.reads {
+				p.failedAt = c.pos(call.Pos())
+				p.failedSite = call.Pos()
+				return true
+			}
+			return false
+		}
 		switch name {
 		case "len":
 			a := arg(0)
@@ -296,9 +523,27 @@ func (c *Ctx) serHooks(load bool) Hooks {
 				return one(st, tagV("len", a.Data)), true
 			case isTag(a, "sized"):
 				return one(st, tagV("uv", a.Data)), true
+			case !load && a.K == vTag && a.Tag == "buf" && len(call.Args) == 1:
+				// the length of a scratch buffer is a symbol of its own, so that a test on it can be used
+				k := "buflen:" + types.ExprString(call.Args[0]) + "@" + c.pos(call.Args[0].Pos())
+				if fp := c.fieldPath(call.Args[0]); fp != "" {
+					if _, isID := stripParens(call.Args[0]).(*ast.Ident); !isID {
+						k = "buflen:" + fp
+					}
+				}
+				bufKeys[k] = stripParens(call.Args[0])
+				return one(st, linV(linSym(k))), true
+			case !load && a.K == vTag && a.Tag != "buf":
+				return one(st, linV(linSym("len:"+a.String()))), true // the length of a value being written
 			}
 			return one(st, unknownV()), true
 		case "make":
+			if !load && len(args) >= 2 {
+				if l, ok := args[1].asLin(); ok {
+					return one(st, tagV("buf", []*Lin{l})), true
+				}
+				return one(st, unknownV()), true
+			}
 			if len(args) >= 2 && isTag(args[1], "uv") {
 				p.pending = args[1].Data.(int)
 				return one(st, tagV("sized", args[1].Data)), true
@@ -337,38 +582,98 @@ func (c *Ctx) serHooks(load bool) Hooks {
 			if name == "valueToBytes" {
 				kind = "VALUE"
 			}
+			if !load {
+				// the scratch buffer must hold what is encoded: 9 bytes for a varint, type code + 9 for a scalar
+				// value, type code + 9 + len(s) for a string
+				need := linConst(9)
+				what := "scalar"
+				if name == "valueToBytes" {
+					need = linConst(serScalarNeed)
+					vd := arg(1).String()
+					switch p.typeFacts[vd] {
+					case "!string":
+					case "string":
+						need = need.add(linSym("len:" + vd))
+						what = "string"
+						p.strSites++
+					default:
+						need = need.add(linSym("len:" + vd))
+						what = "string"
+					}
+				}
+				p.encSites++
+				buf := arg(0)
+				switch {
+				case !isTag(buf, "buf"):
+					p.bufIssues = append(p.bufIssues, fmt.Sprintf("%s: %s: the size of the buffer handed to %s is not known", what, c.pos(call.Pos()), name))
+				case !bufHolds(buf.Data.([]*Lin), need):
+					p.bufIssues = append(p.bufIssues, fmt.Sprintf("%s: %s: %s needs %s bytes; the buffer is only known to hold %s", what, c.pos(call.Pos()), name, need, boundsString(buf.Data.([]*Lin))))
+				}
+			}
 			return one(st, tagV("encn", serEvent{Kind: kind, What: describe(arg(1)), Pos: call.Pos()})), true
 		case "uvarintFromBuf":
 			id := p.add("U", "?", call.Pos())
+			if failing() {
+				return one(st, Value{K: vTuple, Tup: []Value{unknownV(), tagV("rerr", nil)}}), true
+			}
 			return one(st, Value{K: vTuple, Tup: []Value{tagV("uv", id), nilErr}}), true
 		case "valueFromBuf":
 			id := p.add("VALUE", "?", call.Pos())
+			if failing() {
+				return one(st, Value{K: vTuple, Tup: []Value{unknownV(), tagV("rerr", nil)}}), true
+			}
 			return one(st, Value{K: vTuple, Tup: []Value{tagV("val", id), nilErr}}), true
 		case "bufio.NewReaderSize", "bufio.NewReader":
 			return one(st, tagV("reader", nil)), true
 		case "bufio.NewWriterSize", "bufio.NewWriter":
 			return one(st, tagV("writer", nil)), true
-		case "io.ReadFull", "io.ReadAtLeast":
+		case "io.ReadFull":
 			buf := arg(1)
+			sz := readSize{K: -1}
 			switch {
 			case isTag(buf, "field"):
 				f := buf.Data.(string)
 				id := p.add("RAW", f, call.Pos())
+				sz.Field = f
 				if uv, ok := p.sized[f]; ok {
 					p.rawCount[id] = uv
+					sz.UV = uv
 				} else {
 					p.problem(c.pos(call.Pos()) + ": " + f + " is read without having been sized from the stream")
 				}
 			case isTag(buf, "sized"):
 				id := p.add("RAW", "?", call.Pos())
 				p.rawCount[id] = buf.Data.(int)
+				sz.UV = buf.Data.(int)
 			case isTag(buf, "unsized"):
 				p.add("RAW", "?unsized", call.Pos())
 				p.problem(c.pos(call.Pos()) + ": bytes are read into a buffer whose size is not the varint read from the stream")
 			default:
-				p.add("HDR", c.sliceLen(call.Args[1]), call.Pos())
+				n := c.sliceLen(call.Args[1])
+				p.add("HDR", n, call.Pos())
+				id := 0 // ordinal of the header read
+				for _, e := range p.frames[0] {
+					if e.Kind == "HDR" {
+						id++
+					}
+				}
+				if k, err := strconv.ParseInt(n, 10, 64); err == nil {
+					sz.K = k
+				}
+				// the local buffer now holds these bytes
+				root := stripParens(call.Args[1])
+				if se, ok := root.(*ast.SliceExpr); ok {
+					root = stripParens(se.X)
+				}
+				if rid, ok := root.(*ast.Ident); ok {
+					p.bufRead[c.objOf(rid)] = id
+				}
 			}
-			return one(st, Value{K: vTuple, Tup: []Value{tagV("readn", nil), nilErr}}), true
+			if failing() {
+				sz.Short = true
+				return one(st, Value{K: vTuple, Tup: []Value{tagV("readn", sz), tagV("rerr", nil)}}), true
+			}
+			return one(st, Value{K: vTuple, Tup: []Value{tagV("readn", sz), nilErr}}), true
 		}
 		fn, _ := callee.(*types.Func)
 		if fn != nil && (fn.Pkg() == nil || fn.Pkg().Path() != bclPath) {
@@ -399,7 +704,7 @@ func (c *Ctx) serHooks(load bool) Hooks {
 						if fn.Name() == "WriteByte" {
 							return one(st, nilErr), true
 						}
-						return one(st, Value{K: vTuple, Tup: []Value{tagV("readn", nil), nilErr}}), true
+						return one(st, Value{K: vTuple, Tup: []Value{unknownV(), nilErr}}), true
 					}
 				case "Flush":
 					if !load {
@@ -407,12 +712,40 @@ func (c *Ctx) serHooks(load bool) Hooks {
 						return one(st, tagV("flusherr", nil)), true
 					}
 				case "Read", "ReadByte":
+					if load && fn.Name() == "Read" && len(call.Args) == 1 && c.sliceLen(call.Args[0]) != "1" {
+						// a plain Read used to fetch data (the read-primitive rule refuses it): modelled as the
+						// header read it stands for so that the other rules keep their bearings
+						n := c.sliceLen(call.Args[0])
+						p.add("HDR", n, call.Pos())
+						id := 0
+						for _, e := range p.frames[0] {
+							if e.Kind == "HDR" {
+								id++
+							}
+						}
+						root := stripParens(call.Args[0])
+						if se, ok := root.(*ast.SliceExpr); ok {
+							root = stripParens(se.X)
+						}
+						if rid, ok := root.(*ast.Ident); ok {
+							p.bufRead[c.objOf(rid)] = id
+						}
+						sz := readSize{K: -1}
+						if k, err := strconv.ParseInt(n, 10, 64); err == nil {
+							sz.K = k
+						}
+						if failing() {
+							sz.Short = true
+							return one(st, Value{K: vTuple, Tup: []Value{tagV("readn", sz), tagV("rerr", nil)}}), true
+						}
+						return one(st, Value{K: vTuple, Tup: []Value{tagV("readn", sz), nilErr}}), true
+					}
 					if load {
 						p.add("TRAIL", "", call.Pos())
 						if fn.Name() == "ReadByte" {
 							return one(st, Value{K: vTuple, Tup: []Value{unknownV(), tagV("eof", nil)}}), true
 						}
-						return one(st, Value{K: vTuple, Tup: []Value{tagV("readn0", nil), tagV("eof", nil)}}), true
+						return one(st, Value{K: vTuple, Tup: []Value{unknownV(), tagV("eof", nil)}}), true
 					}
 				}
 			}
@@ -425,6 +758,12 @@ func (c *Ctx) serHooks(load bool) Hooks {
 	}
 	h.Store = func(in *Interp, st *State, lhs ast.Expr, op token.Token, v Value) bool {
 		if !load {
+			if sel, ok := lhs.(*ast.SelectorExpr); ok && op == token.ASSIGN {
+				if fp := c.fieldPath(sel); fp != "" && !strings.HasPrefix(fp, "<Prog>.") {
+					serPayOf(st).fields[fp] = v
+					return true
+				}
+			}
 			return false
 		}
 		p := serPayOf(st)
@@ -453,6 +792,10 @@ func (c *Ctx) serHooks(load bool) Hooks {
 			}
 			f := c.progFieldLoose(l)
 			if f == "" {
+				if fp := c.fieldPath(l); fp != "" && op == token.ASSIGN {
+					p.fields[fp] = v
+					return true
+				}
 				return false
 			}
 			if _, isStruct := derefType(o.Type()).Underlying().(*types.Struct); isStruct {
@@ -504,6 +847,172 @@ func (c *Ctx) serHooks(load bool) Hooks {
 			return true
 		}
 		return false
+	}
+	h.Assume = func(in *Interp, st *State, cond ast.Expr, branch bool) bool {
+		if load {
+			return true
+		}
+		be, ok := stripParens(cond).(*ast.BinaryExpr)
+		if !ok {
+			return true
+		}
+		op := be.Op
+		switch op {
+		case token.LSS, token.LEQ, token.GTR, token.GEQ, token.EQL:
+		default:
+			return true
+		}
+		xv, yv := in.eval(st.clone(), be.X), in.eval(st.clone(), be.Y)
+		if len(xv) != 1 || len(yv) != 1 {
+			return true
+		}
+		xl, ok1 := xv[0].v.asLin()
+		yl, ok2 := yv[0].v.asLin()
+		if !ok1 || !ok2 {
+			return true
+		}
+		// X op Y  <=>  d op 0 with d = X - Y; solve for the one buffer length in it
+		d := xl.sub(yl)
+		var sym string
+		for k := range d.T {
+			if strings.HasPrefix(k, "buflen:") {
+				if sym != "" {
+					return true
+				}
+				sym = k
+			}
+		}
+		if sym == "" {
+			return true
+		}
+		coef := d.coef(sym)
+		if coef != 1 && coef != -1 {
+			return true
+		}
+		rest := d.without(sym) // coef*L + rest op 0
+		if !branch {
+			switch op {
+			case token.LSS:
+				op = token.GEQ
+			case token.GEQ:
+				op = token.LSS
+			case token.GTR:
+				op = token.LEQ
+			case token.LEQ:
+				op = token.GTR
+			case token.EQL:
+				return true
+			}
+		}
+		// L op' bound
+		bound := rest.scale(-1) // coef = 1:  L op -rest
+		if coef == -1 {
+			bound = rest // -L + rest op 0  <=>  L (flipped op) rest
+			switch op {
+			case token.LSS:
+				op = token.GTR
+			case token.GTR:
+				op = token.LSS
+			case token.LEQ:
+				op = token.GEQ
+			case token.GEQ:
+				op = token.LEQ
+			}
+		}
+		switch op {
+		case token.GEQ, token.EQL:
+		case token.GTR:
+			bound = bound.add(linConst(1))
+		default:
+			return true
+		}
+		// len(x) >= bound holds from here on
+		add := func(cur Value) Value {
+			var lows []*Lin
+			if cur.K == vTag && cur.Tag == "buf" {
+				lows = append(lows, cur.Data.([]*Lin)...)
+			}
+			return tagV("buf", append(lows, bound))
+		}
+		switch x := bufKeys[sym].(type) {
+		case *ast.Ident:
+			if obj := c.objOf(x); obj != nil {
+				st.Env[obj] = add(st.Env[obj])
+			}
+		case *ast.SelectorExpr:
+			if fp := c.fieldPath(x); fp != "" {
+				p := serPayOf(st)
+				p.fields[fp] = add(p.fields[fp])
+			}
+		}
+		return true
+	}
+	h.Decision = func(in *Interp, st *State, cond ast.Expr, v Value, branch bool) {
+		p := serPayOf(st)
+		d := serDecision{Pos: cond.Pos(), Cond: types.ExprString(cond), Taken: branch, NEv: p.next}
+		if v.K == vTag && v.Tag == "typeok" {
+			tt := v.Data.(typeTest)
+			if tt.Type == "string" {
+				if branch {
+					p.typeFacts[tt.Val] = "string"
+				} else {
+					p.typeFacts[tt.Val] = "!string"
+				}
+			}
+		}
+		if be, ok := stripParens(cond).(*ast.BinaryExpr); ok && load {
+			// header bytes against a format constant
+			constName := func(e ast.Expr) string {
+				if id, ok := c.stripConv(e).(*ast.Ident); ok {
+					if k, ok := c.objOf(id).(*types.Const); ok && k.Pkg() != nil && k.Pkg().Path() == bclPath {
+						return k.Name()
+					}
+				}
+				return ""
+			}
+			hdrOf := func(e ast.Expr) string {
+				vs := in.eval(st.clone(), e)
+				if len(vs) == 1 && vs[0].v.K == vTag && vs[0].v.Tag == "hdrbytes" {
+					return vs[0].v.Data.(string)
+				}
+				return ""
+			}
+			op := be.Op
+			k, hb := constName(be.Y), hdrOf(be.X)
+			if k == "" || hb == "" {
+				k, hb = constName(be.X), hdrOf(be.Y)
+				switch op { // the header bytes go on the left
+				case token.LSS:
+					op = token.GTR
+				case token.GTR:
+					op = token.LSS
+				case token.LEQ:
+					op = token.GEQ
+				case token.GEQ:
+					op = token.LEQ
+				}
+			}
+			if k != "" && hb != "" {
+				if !branch {
+					switch op {
+					case token.EQL:
+						op = token.NEQ
+					case token.NEQ:
+						op = token.EQL
+					case token.LSS:
+						op = token.GEQ
+					case token.GEQ:
+						op = token.LSS
+					case token.GTR:
+						op = token.LEQ
+					case token.LEQ:
+						op = token.GTR
+					}
+				}
+				d.Header = fmt.Sprintf("%s %s %s", hb, op, k)
+			}
+		}
+		p.decisions = append(p.decisions, d)
 	}
 	h.Loop = func(in *Interp, st *State, loop ast.Stmt, body func(*State) []*State) ([]*State, bool) {
 		isTag := func(v Value, t string) bool { return v.K == vTag && v.Tag == t }
@@ -586,6 +1095,26 @@ func (c *Ctx) serHooks(load bool) Hooks {
 		default:
 			return nil, false
 		}
+		// Dump: what is known about a scratch buffer at the head of the loop must hold again at its end; the
+		// invariant tried is "holds a scalar" (type code + 9 bytes)
+		var bufVars []types.Object
+		var bufFields []string
+		if !load {
+			inv := []*Lin{linConst(serScalarNeed)}
+			for obj, v := range st.Env {
+				if v.K == vTag && v.Tag == "buf" && bufHolds(v.Data.([]*Lin), inv[0]) {
+					st.Env[obj] = tagV("buf", inv)
+					bufVars = append(bufVars, obj)
+				}
+			}
+			pf := serPayOf(st).fields
+			for k, v := range pf {
+				if v.K == vTag && v.Tag == "buf" && bufHolds(v.Data.([]*Lin), inv[0]) {
+					pf[k] = tagV("buf", inv)
+					bufFields = append(bufFields, k)
+				}
+			}
+		}
 		serPayOf(st).push()
 		var out []*State
 		var cont []*State
@@ -601,6 +1130,16 @@ func (c *Ctx) serHooks(load bool) Hooks {
 		seen := map[string]bool{}
 		for _, r := range cont {
 			p := serPayOf(r)
+			for _, obj := range bufVars {
+				if v := r.Env[obj]; !(v.K == vTag && v.Tag == "buf" && bufHolds(v.Data.([]*Lin), linConst(serScalarNeed))) {
+					p.bufIssues = append(p.bufIssues, fmt.Sprintf("scalar: %s: after an iteration the scratch buffer %s is no longer known to hold %d bytes", c.pos(loop.Pos()), obj.Name(), serScalarNeed))
+				}
+			}
+			for _, k := range bufFields {
+				if v := p.fields[k]; !(v.K == vTag && v.Tag == "buf" && bufHolds(v.Data.([]*Lin), linConst(serScalarNeed))) {
+					p.bufIssues = append(p.bufIssues, fmt.Sprintf("scalar: %s: after an iteration the scratch buffer %s is no longer known to hold %d bytes", c.pos(loop.Pos()), k, serScalarNeed))
+				}
+			}
 			field := p.loopFld[len(p.loopFld)-1]
 			if field == "" {
 				field = rangeField
@@ -624,7 +1163,7 @@ func (c *Ctx) serHooks(load bool) Hooks {
 				p.problem(c.pos(loop.Pos()) + ": loop over something that is not a Prog field")
 			}
 			p.pop(field, loop.Pos())
-			k := seqString(p.resolved()) + "|" + strings.Join(p.problems, ";")
+			k := seqString(p.resolved()) + "|" + strings.Join(p.problems, ";") + "|" + strings.Join(p.bufIssues, ";")
 			if seen[k] {
 				continue
 			}
@@ -679,20 +1218,26 @@ func (c *Ctx) sliceLen(e ast.Expr) string {
 type serModel struct {
 	Events   []serEvent
 	Problems []string
+	Good     []serPath // paths on which the function succeeds (Load returns nil; Dump always)
+	Bad      []serPath // paths on which Load returns an error although every read succeeded
 }
 
-// serModelOf interprets Prog.Dump (load=false) or Prog.Load (load=true).
-func (c *Ctx) serModelOf(fd *ast.FuncDecl, load bool) *serModel {
-	key := fmt.Sprintf("ser:%v:%p", load, fd)
-	if c.memoTab == nil {
-		c.memoTab = map[string]any{}
-	}
-	if m, ok := c.memoTab[key]; ok {
-		return m.(*serModel)
-	}
-	m := &serModel{}
-	c.memoTab[key] = m
-	in := newInterp(c, c.serHooks(load))
+// serPath is one interpreted path.
+type serPath struct {
+	Result             string // nil, err (an error constructed or passed on), eof, unknown, flush
+	Events             []serEvent
+	Decisions          []serDecision
+	Problems           []string
+	FailedAt           string
+	FailedSite         token.Pos
+	Reads              int
+	BufIssues          []string
+	EncSites, StrSites int
+}
+
+// serRun interprets fd under the mode and gives every path with its result.
+func (c *Ctx) serRun(fd *ast.FuncDecl, mode serMode) (paths []serPath, undecided []string) {
+	in := newInterp(c, c.serHooks(mode))
 	st := &State{Env: map[types.Object]Value{}, P: newSerPay()}
 	var args []Value
 	if fd.Type.Params != nil {
@@ -704,58 +1249,80 @@ func (c *Ctx) serModelOf(fd *ast.FuncDecl, load bool) *serModel {
 	}
 	recv := unknownV()
 	res := in.inlineBody(st, fd.Type, fd.Body, fd.Recv, args, recvOpt{&recv})
-	for _, u := range in.Undecided {
-		m.Problems = append(m.Problems, u)
-	}
-	type outcome struct {
-		seq   string
-		ev    []serEvent
-		probs []string
-	}
-	var good []outcome
-	nFail := 0
 	for _, vs := range res {
 		p := serPayOf(vs.st)
 		v := vs.v
-		ok := false
-		switch {
-		case load:
-			ok = v.K == vTag && v.Tag == "nil"
-			if v.K == vUnknown {
-				// an error value the model could not follow: it is the successful path under the model's assumption
-				ok = true
-			}
-		default:
-			ok = true
-			if !(v.K == vTag && v.Tag == "flusherr") {
-				p.problem(c.pos(fd.Pos()) + ": Dump returns something other than the buffered writer's Flush()")
-			}
+		if v.K == vTuple && len(v.Tup) > 0 {
+			v = v.Tup[len(v.Tup)-1]
 		}
-		if !ok {
-			nFail++
-			continue
+		kind := "unknown"
+		if v.K == vTag {
+			switch v.Tag {
+			case "nil":
+				kind = "nil"
+			case "err", "rerr":
+				kind = "err"
+			case "eof":
+				kind = "eof"
+			case "flusherr":
+				kind = "flush"
+			}
 		}
 		if len(p.frames) != 1 {
-			p.problem(c.pos(fd.Pos()) + ": the function returns from inside a section loop on the successful path")
+			p.problem(c.pos(fd.Pos()) + ": the function returns from inside a section loop")
+			for len(p.frames) > 1 {
+				p.pop("?", fd.Pos())
+			}
 		}
-		ev := p.resolved()
-		good = append(good, outcome{seqString(ev), ev, p.problems})
+		paths = append(paths, serPath{Result: kind, Events: p.resolved(), Decisions: p.decisions, Problems: p.problems, FailedAt: p.failedAt, FailedSite: p.failedSite, Reads: p.reads, BufIssues: p.bufIssues, EncSites: p.encSites, StrSites: p.strSites})
 	}
-	if len(good) == 0 {
+	return paths, in.Undecided
+}
+
+// serModelOf interprets Prog.Dump (load=false) or Prog.Load (load=true) with every read succeeding.
+func (c *Ctx) serModelOf(fd *ast.FuncDecl, load bool) *serModel {
+	key := fmt.Sprintf("ser:%v:%p", load, fd)
+	if c.memoTab == nil {
+		c.memoTab = map[string]any{}
+	}
+	if m, ok := c.memoTab[key]; ok {
+		return m.(*serModel)
+	}
+	m := &serModel{}
+	c.memoTab[key] = m
+	paths, und := c.serRun(fd, serMode{load: load})
+	m.Problems = append(m.Problems, und...)
+	for _, p := range paths {
+		switch {
+		case !load:
+			if p.Result != "flush" {
+				p.Problems = append(p.Problems, c.pos(fd.Pos())+": Dump returns something other than the buffered writer's Flush()")
+			}
+			m.Good = append(m.Good, p)
+		case p.Result == "nil":
+			m.Good = append(m.Good, p)
+		case p.Result == "unknown":
+			m.Problems = append(m.Problems, c.pos(fd.Pos())+": a path of Load returns a value the model cannot classify as nil or an error")
+		default:
+			m.Bad = append(m.Bad, p)
+		}
+	}
+	if len(m.Good) == 0 {
 		m.Problems = append(m.Problems, c.pos(fd.Pos())+": no successful path found")
 		return m
 	}
-	sort.SliceStable(good, func(i, j int) bool { return good[i].seq < good[j].seq })
-	m.Events = good[0].ev
-	seenP := map[string]bool{}
-	for _, g := range good {
-		if g.seq != good[0].seq {
-			m.Problems = append(m.Problems, fmt.Sprintf("%s: the layout depends on the data: [%s] on one path, [%s] on another", c.pos(fd.Pos()), good[0].seq, g.seq))
+	sort.SliceStable(m.Good, func(i, j int) bool { return seqString(m.Good[i].Events) < seqString(m.Good[j].Events) })
+	m.Events = m.Good[0].Events
+	first := seqString(m.Events)
+	for _, g := range m.Good {
+		if s := seqString(g.Events); s != first {
+			m.Problems = append(m.Problems, fmt.Sprintf("%s: the layout depends on the data: [%s] on one path, [%s] on another", c.pos(fd.Pos()), first, s))
 			break
 		}
 	}
-	for _, g := range good {
-		for _, p := range g.probs {
+	seenP := map[string]bool{}
+	for _, g := range m.Good {
+		for _, p := range g.Problems {
 			if !seenP[p] {
 				seenP[p] = true
 				m.Problems = append(m.Problems, p)
@@ -763,4 +1330,96 @@ func (c *Ctx) serModelOf(fd *ast.FuncDecl, load bool) *serModel {
 		}
 	}
 	return m
+}
+
+// rejecting gives the decision on which a failing path leaves the successful ones: the first decision of the path
+// that no successful path takes the same way.
+func (m *serModel) rejecting(p serPath) *serDecision {
+	good := map[string]bool{}
+	for _, g := range m.Good {
+		for _, d := range g.Decisions {
+			good[d.key()] = true
+		}
+	}
+	for i := range p.Decisions {
+		if !good[p.Decisions[i].key()] {
+			return &p.Decisions[i]
+		}
+	}
+	return nil
+}
+
+// serFailure is the outcome of making the read at one call site fail.
+type serFailure struct {
+	Site  token.Pos
+	At    string
+	Nil   []string // descriptions of paths that still return nil (the failure is tolerated)
+	Other []string // paths with a result the model cannot classify
+	Paths int
+}
+
+// readFailures makes each read primitive met on the paths of fd fail in turn (the k-th read of every path, for
+// every k) and groups the outcomes by the call site of the failed read.
+func (c *Ctx) readFailures(fd *ast.FuncDecl) (out []serFailure, undecided []string) {
+	key := fmt.Sprintf("serfail:%p", fd)
+	if c.memoTab == nil {
+		c.memoTab = map[string]any{}
+	}
+	if m, ok := c.memoTab[key]; ok {
+		return m.([]serFailure), nil
+	}
+	base, und := c.serRun(fd, serMode{load: true})
+	undecided = append(undecided, und...)
+	maxReads := 0
+	for _, p := range base {
+		if p.Reads > maxReads {
+			maxReads = p.Reads
+		}
+	}
+	bySite := map[token.Pos]*serFailure{}
+	for k := 1; k <= maxReads; k++ {
+		paths, und := c.serRun(fd, serMode{load: true, failAt: k})
+		undecided = append(undecided, und...)
+		for _, p := range paths {
+			if p.FailedSite == token.NoPos {
+				continue // the path ended before its k-th read
+			}
+			f := bySite[p.FailedSite]
+			if f == nil {
+				f = &serFailure{Site: p.FailedSite, At: p.FailedAt}
+				bySite[p.FailedSite] = f
+			}
+			f.Paths++
+			desc := func() string {
+				var ds []string
+				for _, d := range p.Decisions {
+					pol := ""
+					if !d.Taken {
+						pol = "!"
+					}
+					ds = append(ds, pol+"("+d.Cond+")")
+				}
+				if len(ds) > 4 {
+					ds = ds[len(ds)-4:]
+				}
+				return strings.Join(ds, " ")
+			}
+			switch p.Result {
+			case "nil":
+				f.Nil = append(f.Nil, desc())
+			case "unknown":
+				f.Other = append(f.Other, desc())
+			}
+		}
+	}
+	var sites []token.Pos
+	for s := range bySite {
+		sites = append(sites, s)
+	}
+	sort.Slice(sites, func(i, j int) bool { return sites[i] < sites[j] })
+	for _, s := range sites {
+		out = append(out, *bySite[s])
+	}
+	c.memoTab[key] = out
+	return out, undecided
 }
